@@ -60,6 +60,10 @@ func (pf *ZKProof) Verify(Session []byte, X *crypto.ECPoint) bool {
 	ecParams := ec.Params()
 	q := ecParams.N
 	g := crypto.NewECPointNoCurveCheck(ec, ecParams.Gx, ecParams.Gy)
+	// t*G is not an affine point when t = 0 mod q
+	if new(big.Int).Mod(pf.T, q).Sign() == 0 {
+		return false
+	}
 
 	var c *big.Int
 	{
@@ -114,6 +118,10 @@ func (pf *ZKVProof) Verify(Session []byte, V, R *crypto.ECPoint) bool {
 	ecParams := ec.Params()
 	q := ecParams.N
 	g := crypto.NewECPointNoCurveCheck(ec, ecParams.Gx, ecParams.Gy)
+	// t*R and u*G are not affine points when t = 0 or u = 0 mod q
+	if new(big.Int).Mod(pf.T, q).Sign() == 0 || new(big.Int).Mod(pf.U, q).Sign() == 0 {
+		return false
+	}
 
 	var c *big.Int
 	{
@@ -122,7 +130,10 @@ func (pf *ZKVProof) Verify(Session []byte, V, R *crypto.ECPoint) bool {
 	}
 	tR := R.ScalarMult(pf.T)
 	uG := crypto.ScalarBaseMult(ec, pf.U)
-	tRuG, _ := tR.Add(uG) // already on the curve.
+	tRuG, err := tR.Add(uG)
+	if err != nil {
+		return false
+	}
 
 	Vc := V.ScalarMult(c)
 	aVc, err := pf.Alpha.Add(Vc)
